@@ -375,6 +375,150 @@ def scripted(cfg, rng):
     return [(n_, o) for n_, o in out if is_wf(o)]
 
 
+
+# --- header-block walks: macro histories at the granularity of the 64-slot header blocks ------------------
+def blockwalk(rng, cfg, steps=14):
+    """Random histories made of macro steps on whole header blocks (placement followed with HdrSim): empty the g-th
+    linked block, punch a hole into it, allocate 1/2/63/64/65 more, free the newest / oldest 1/64/65 live headers.
+    Longer and wider than blockwalk_enum (up to CACHE_MAX+3 blocks worth of headers, spill to plain malloc)."""
+    cm = cfg["CACHE_MAX"]
+    t, ops, sim = Track(), [], HdrSim(cm)
+
+    def init(n, r=1, c=1):
+        for _ in range(n):
+            o = ("I", r, c)
+            t.apply(o); ops.append(o); sim.malloc(len(t.live) - 1)
+            if rng.random() < 0.15:
+                ops.append(("X", len(t.live) - 1, rng.randint(1, 1 << 30)))
+
+    def free(hs):
+        for h in hs:
+            if h < len(t.live) and t.live[h]:
+                o = ("F", h); t.apply(o); ops.append(o); sim.free(h)
+
+    ngroups = min(cm + 1, 3) if cm >= 2 else cm + 1
+    init(64 * ngroups - rng.choice([0, 0, 1, 63]) + rng.choice([0, 1, 2]))
+    for _ in range(steps):
+        x = rng.random()
+        if x < 0.30:
+            hs = sorted(sim.handles_in(rng.randrange(len(sim.blocks))))
+            if rng.random() < 0.5:
+                rng.shuffle(hs)
+            free(hs)
+        elif x < 0.50:
+            hs = sim.handles_in(rng.randrange(len(sim.blocks)))
+            free([rng.choice(hs)] if hs else [])
+        elif x < 0.80:
+            init(rng.choice([1, 1, 2, 63, 64, 65]))
+        elif x < 0.90:
+            live = [h for h in range(len(t.live)) if t.live[h]]
+            free(live[-rng.choice([1, 64, 65]):])
+        else:
+            live = [h for h in range(len(t.live)) if t.live[h]]
+            free(live[:rng.choice([1, 64, 65])])
+        if sum(t.live) > 64 * (cm + 3):
+            break
+    init(rng.choice([3, 70]), 2, 3)       # fresh matrices after the walk must be zero, disjoint, in sane slots
+    hs = [h for h in range(len(t.live)) if t.live[h]]
+    rng.shuffle(hs)
+    return ops + [("F", h) for h in hs] + [("Z",)]
+
+
+class HdrSim:
+    """Generator-side mirror of the placement policy of mzd_t_malloc/mzd_t_free (mzd.c): only used to AIM the
+    macro histories at whole header blocks (which live handles sit in which block); it decides nothing."""
+
+    def __init__(self, cache_max):
+        self.cm = cache_max
+        self.blocks = [[0, 0]]          # [id, used mask]; block 0 = the static one
+        self.cur = 0                    # index into self.blocks
+        self.nextid = 1
+        self.where = {}                 # handle -> block id or None (plain malloc)
+
+    def malloc(self, h):
+        FULL = (1 << 64) - 1
+        if self.blocks[self.cur][1] == FULL:
+            k = 0
+            while k < len(self.blocks) and self.blocks[k][1] == FULL:
+                self.cur = k
+                k += 1
+            if k == len(self.blocks) and k < self.cm:
+                self.blocks.append([self.nextid, 0]); self.nextid += 1
+                self.cur = len(self.blocks) - 1
+            elif k == len(self.blocks):
+                self.where[h] = None
+                return
+            else:
+                self.cur = k
+        b = self.blocks[self.cur]
+        e = (~b[1] & ((1 << 64) - 1)).bit_length() - 1
+        b[1] |= 1 << e
+        self.where[h] = (b[0], e)
+
+    def free(self, h):
+        w = self.where.pop(h)
+        if w is None:
+            return
+        bid, e = w
+        k = [x[0] for x in self.blocks].index(bid)
+        self.blocks[k][1] &= ~(1 << e)
+        if self.blocks[k][1] == 0:
+            if k == 0:
+                self.cur = 0
+            else:
+                if self.cur == k:
+                    self.cur = k - 1
+                elif self.cur > k:
+                    self.cur -= 1
+                del self.blocks[k]
+
+    def handles_in(self, pos):
+        """live handles whose header sits in the pos-th linked block"""
+        if pos >= len(self.blocks):
+            return []
+        bid = self.blocks[pos][0]
+        return [h for h, w in self.where.items() if w is not None and w[0] == bid]
+
+
+def blockwalk_enum(cfg, depth, start_extra=0):
+    """ALL macro histories of exactly `depth` steps over the alphabet {E0,E1,E2 (free every header of the g-th
+    linked header block), H0,H1,H2 (free one header of that block), A1, A64} from 3 full blocks
+    (+start_extra headers): at most 8^depth histories.  The bounded-exhaustive counterpart of blockwalk() for the
+    prev/next/current bookkeeping of the header-block list (e.g. the current block emptied while it has a successor)."""
+    import itertools
+    alphabet = [("E", 0), ("E", 1), ("E", 2), ("H", 0), ("H", 1), ("H", 2), ("A", 1), ("A", 64)]
+    out = []
+    for seq in itertools.product(alphabet, repeat=depth):
+        t, ops, sim = Track(), [], HdrSim(cfg["CACHE_MAX"])
+        def init(n):
+            for _ in range(n):
+                o = ("I", 1, 1); t.apply(o); ops.append(o); sim.malloc(len(t.live) - 1)
+        def free(hs):
+            for h in hs:
+                if h < len(t.live) and t.live[h]:
+                    o = ("F", h); t.apply(o); ops.append(o); sim.free(h)
+        init(192 + start_extra)
+        useful = True
+        for k, (m, a) in enumerate(seq):
+            n0 = len(ops)
+            if m == "E":
+                free(sorted(sim.handles_in(a)))
+            elif m == "H":
+                hs = sorted(sim.handles_in(a))
+                free(hs[(7 + k) % len(hs):][:1] if hs else [])
+            else:
+                init(a)
+            if len(ops) == n0:
+                useful = False
+                break
+        if not useful:
+            continue
+        init(3)
+        hs = [h for h in range(len(t.live)) if t.live[h]]
+        ops += [("F", h) for h in hs] + [("Z",)]
+        out.append(("bw-" + "".join("%s%d" % x for x in seq), ops))
+    return out
+
 # --- random histories ------------------------------------------------------------------------
 def random_history(rng, n, cfg, big_targets):
     thr = cfg["THRESHOLD"]
@@ -687,6 +831,11 @@ def run(res, tier, seed):
         length = 10000 if thorough else 1000
         targets = [0, 3, 20, 70, 140] + ([64 * cfg["CACHE_MAX"] + 80] if thorough else [])
         rh = [("rand%d-%d" % (seed, i), random_history(rng, length, cfg, targets)) for i in range(nrand)]
+        if cfg["mzd"]:
+            nwalk = (120 if thorough else 30) if name == "real" else (20 if thorough else 6)
+            rh += [("blockwalk%d-%d" % (seed, i), blockwalk(rng, cfg)) for i in range(nwalk)]
+            if name == "real":
+                rh += blockwalk_enum(cfg, 4) + (blockwalk_enum(cfg, 5) if thorough else [])
         for nm_, ops in hs + rh:
             res.count("%s/%s/%s" % (name, nm_, hashlib.sha1(script([], [("k", ops)]).encode()).hexdigest()[:10]))
             eng.count_ops(ops)
